@@ -7,6 +7,8 @@ COMMON_ASSUME = [
 ]
 
 TIERS = {
+    "C16": {"quick": {"runs": 300, "budget_s": 80, "run_timeout_s": 300},
+            "thorough": {"runs": 5000, "budget_s": 900, "run_timeout_s": 600}},
     "C19": {"quick": {"runs": 500, "budget_s": 70, "run_timeout_s": 300},
             "thorough": {"runs": 8000, "budget_s": 900, "run_timeout_s": 600}},
     "C18": {"quick": {"runs": 200, "budget_s": 90, "run_timeout_s": 400},
@@ -41,6 +43,16 @@ TM_RULE = ("case = (generated program, argument, seeded history of trace transit
            "or a fault fired")
 
 META = {
+    "C16": {"LEVEL": "exploration",
+            "RULE": "case = (generated program with nested / vectorised / scanned / Cond-merged leaves, 3-6 generated selection "
+                    "expressions of nesting <= 3 over its address alphabet, kernel mala|hmc); distinct = distinct (program shape, "
+                    "selection expressions); non-trivial = some selection is compound and the program has a combinator",
+            "COMPONENTS": {"real": ["genjax.core selections (match chain), Fn/Vmap/Scan/Cond filter and merge, regenerate", "genjax.inference.mcmc mala/hmc"],
+                           "stub": ["SCRIPTED kernel runs: Seed key splitting and leaf samplers (accept uniform scripted to accept)", "sim/jaxcompat.py"],
+                           "regimes": "REAL (regenerate) + SCRIPTED (kernels)"},
+            "ASSUMPTIONS": COMMON_ASSUME + ["chained-match and filter/merge clauses are op-level comparisons with no scheduling content",
+                                            "a fresh continuous draw differs from the old value (exact, probability 1)"],
+            "REQUIRED_PROBES": {"quick": ["selections", "regen", "kernel_moves", "filter"], "thorough": ["selections", "regen", "kernel_moves", "filter"]}},
     "C19": {"LEVEL": "exploration",
             "RULE": "case = (generated program placing save / tag_state / leaf-mode save inside nested functions, namespaces, scans "
                     "(nested, namespaces around scans), vmap and modular_vmap; configuration eager / jit / seed(state(f)) / "
@@ -152,6 +164,9 @@ META = {
 
 DST = "deterministic simulation with fault injection"
 CLAIMS = {
+    "C16": dict(text="through the randomness seam: the leaves redrawn by regenerate and moved by mala/hmc (SCRIPTED accept) are exactly the leaves filter selects and the Boolean meaning of generated selection expressions; chained match / filter-merge partition as op-level comparisons",
+                ref="DESIGN.md 4 C16", note="algebra clauses are pure op-level comparisons (stated in the evidence); bounded nesting",
+                technique=DST + " (randomness seam shows which leaves receive fresh randomness; Boolean-algebra reference)"),
     "C19": dict(text="save events as messages, the returned dict as delivery: exactly-once, last-writer-wins, in-order stacking, checked for generated placements under eager/jit/seed against the fold of the same events over the program's own returned values",
                 ref="DESIGN.md 4 C19", note="eager-only clauses are op-level comparisons; save inside cond branches is outside the claim and not generated",
                 technique=DST + " (event-history oracle over save messages; REAL regime under seed/jit)"),
